@@ -437,6 +437,8 @@ func extractGroupBalancer(repo, root string) error {
 	}
 	fmt.Fprintf(&sb, "/-- extractTopics: `for _, m := range members { for _, t := range m.Topics { if _, seen := VISITED[t]; seen { continue }; RESULT = append(RESULT, t); VISITED[t] = … } }; sort.Strings(RESULT); return RESULT` -/\ndef extractTopicsIsFirstSeenThenSorted : Bool := %v\n", extractTopicsShape(funcNamed(rdf, "", "extractTopics")))
 	fmt.Fprintf(&sb, "/-- makeAssignments: the outer loop ranges over the group's OWN configured topics (`cg.config.Topics`) and looks the received assignment up by that topic; the inner loop appends one entry per received partition -/\ndef makeAssignmentsRangesOverOwnTopics : Bool := %v\n", makeAssignmentsShape(funcNamed(cgf, "ConsumerGroup", "makeAssignments")))
+	fmt.Fprintf(&sb, "/-- assignTopicPartitions: MEMBERS := makeMemberProtocolMetadata(<param>.Members); TOPICS := extractTopics(MEMBERS); PARTS := <conn>.readPartitions(TOPICS...); … AssignGroups(MEMBERS, PARTS) — the same objects all the way -/\ndef assignTopicPartitionsDataflow : Bool := %v\n", assignDataflow(funcNamed(cgf, "ConsumerGroup", "assignTopicPartitions")))
+	fmt.Fprintf(&sb, "/-- nextGeneration: (M, G, A) := joinGroup(conn, …); R := syncGroup(conn, M, G, A); O := fetchOffsets(conn, R); Generation{Assignments: makeAssignments(R, O)} — the SyncGroup carries the ids and the assignments of THIS JoinGroup, the generation holds what THIS SyncGroup returned -/\ndef nextGenerationDataflow : Bool := %v\n", nextGenerationDataflow(funcNamed(cgf, "ConsumerGroup", "nextGeneration")))
 	// conn.go: the functions that turn a Metadata answer into partitions keep the other topics when one is unknown
 	cnf, err := parser.ParseFile(fset, filepath.Join(repo, "conn.go"), nil, 0)
 	if err != nil {
@@ -977,4 +979,122 @@ func makeAssignmentsShape(fd *ast.FuncDecl) bool {
 		return true
 	})
 	return appends && !hasEarlyExit(outer[0].Body)
+}
+
+// callTo returns the call expression if e is `<anything>.name(args…)` or `name(args…)`.
+func callTo(e ast.Expr, name string) *ast.CallExpr {
+	c, ok := e.(*ast.CallExpr)
+	if !ok {
+		return nil
+	}
+	switch f := c.Fun.(type) {
+	case *ast.Ident:
+		if f.Name == name {
+			return c
+		}
+	case *ast.SelectorExpr:
+		if f.Sel.Name == name {
+			return c
+		}
+	}
+	return nil
+}
+
+// assignedFrom finds the statement `lhs… := / = <call to name>` in the body (any depth) and returns the objects on
+// its left-hand side and the call; nil if there is not exactly one.
+func assignedFrom(body *ast.BlockStmt, name string) ([]*ast.Object, *ast.CallExpr) {
+	var objs []*ast.Object
+	var call *ast.CallExpr
+	n := 0
+	ast.Inspect(body, func(nd ast.Node) bool {
+		if a, ok := nd.(*ast.AssignStmt); ok && len(a.Rhs) == 1 {
+			if c := callTo(a.Rhs[0], name); c != nil {
+				n++
+				call = c
+				objs = nil
+				for _, l := range a.Lhs {
+					objs = append(objs, objOf(l))
+				}
+			}
+		}
+		return true
+	})
+	if n != 1 {
+		return nil, nil
+	}
+	return objs, call
+}
+
+func assignDataflow(fd *ast.FuncDecl) bool {
+	if fd == nil {
+		return false
+	}
+	params := paramObjs(fd)
+	mem, c1 := assignedFrom(fd.Body, "makeMemberProtocolMetadata")
+	if c1 == nil || len(mem) < 1 || mem[0] == nil || len(c1.Args) != 1 {
+		return false
+	}
+	// argument: <a parameter>.Members
+	sel, ok := c1.Args[0].(*ast.SelectorExpr)
+	if !ok || sel.Sel.Name != "Members" {
+		return false
+	}
+	isParam := false
+	for _, p := range params {
+		if p != nil && p == objOf(sel.X) {
+			isParam = true
+		}
+	}
+	top, c2 := assignedFrom(fd.Body, "extractTopics")
+	if !isParam || c2 == nil || len(top) != 1 || top[0] == nil || len(c2.Args) != 1 || objOf(c2.Args[0]) != mem[0] {
+		return false
+	}
+	prt, c3 := assignedFrom(fd.Body, "readPartitions")
+	if c3 == nil || len(prt) < 1 || prt[0] == nil || len(c3.Args) != 1 || !c3.Ellipsis.IsValid() || objOf(c3.Args[0]) != top[0] {
+		return false
+	}
+	ok = false
+	n := 0
+	ast.Inspect(fd.Body, func(nd ast.Node) bool {
+		if c, isCall := nd.(*ast.CallExpr); isCall {
+			if cc := callTo(c, "AssignGroups"); cc != nil {
+				n++
+				ok = len(cc.Args) == 2 && objOf(cc.Args[0]) == mem[0] && objOf(cc.Args[1]) == prt[0]
+			}
+		}
+		return true
+	})
+	return ok && n == 1
+}
+
+func nextGenerationDataflow(fd *ast.FuncDecl) bool {
+	if fd == nil {
+		return false
+	}
+	j, cj := assignedFrom(fd.Body, "joinGroup")
+	if cj == nil || len(j) != 4 || j[0] == nil || j[1] == nil || j[2] == nil {
+		return false
+	}
+	r, cs := assignedFrom(fd.Body, "syncGroup")
+	if cs == nil || len(r) != 2 || r[0] == nil || len(cs.Args) != 4 ||
+		objOf(cs.Args[1]) != j[0] || objOf(cs.Args[2]) != j[1] || objOf(cs.Args[3]) != j[2] {
+		return false
+	}
+	o, cf := assignedFrom(fd.Body, "fetchOffsets")
+	if cf == nil || len(o) != 2 || o[0] == nil || len(cf.Args) != 2 || objOf(cf.Args[1]) != r[0] {
+		return false
+	}
+	ok, n := false, 0
+	ast.Inspect(fd.Body, func(nd ast.Node) bool {
+		if kv, isKV := nd.(*ast.KeyValueExpr); isKV {
+			if k, _ := kv.Key.(*ast.Ident); k != nil && k.Name == "Assignments" {
+				if c := callTo(kv.Value, "makeAssignments"); c != nil {
+					n++
+					ok = len(c.Args) == 2 && objOf(c.Args[0]) == r[0] && objOf(c.Args[1]) == o[0]
+				}
+			}
+		}
+		return true
+	})
+	return ok && n == 1
 }
